@@ -79,90 +79,287 @@ ILLEGAL = [",", ":", ";", "(", ")"]
 
 
 # ---------------------------------------------------------------- translator (Gen)
+# The three anchored .pyx files are read with `tokenize`; every modelled function is brought into a NORMAL FORM that
+# does not change under harmless maintenance:
+#   * comments, docstrings, layout, bare `cdef T x` declarations: dropped;
+#   * local variables (cdef-declared, assigned, loop targets; parameters of private functions): renamed v0, v1, … in
+#     order of first occurrence; private helpers are found through their public callers and named by role;
+#   * the argument of `raise X(…)` (message text): dropped -- the exception class stays;
+#   * `a > b` / `a >= b` are written `b < a` / `b <= a`, the operands of a top-level `or` are sorted;
+#   * `if C: S… else: break|continue` is written as the guard clause `if not C: break|continue` followed by `S…`.
+# Everything else -- operators, constants, order of statements and checks, dtypes, public names, attribute names,
+# defaults, exception classes -- stays significant and is compared with Proofs/C19Pinned.lean.
+_KEYWORDS = {"if", "elif", "else", "for", "in", "while", "not", "and", "or", "is", "None", "True", "False", "return",
+             "raise", "break", "continue", "cdef", "def", "pass", "lambda", "self", "import", "from", "as", "with",
+             "try", "except", "finally", "del", "global", "yield", "assert", "class"}
+
+
 def _logical_lines(src):
-    """(indent, text) of every logical line of a .pyx/.py text, comments and blank lines dropped, tokens joined
-    without layout (a space only between two word-like tokens) -- formatting and comments do not matter."""
+    """[(indent, [token strings])] for every logical line; comments and blank lines dropped."""
     import io
     import tokenize
-    out, cur, indent, prev = [], [], None, None
+    out, cur, indent = [], [], None
     for tok in tokenize.generate_tokens(io.StringIO(src).readline):
         if tok.type in (tokenize.COMMENT, tokenize.NL, tokenize.INDENT, tokenize.DEDENT, tokenize.ENCODING):
             continue
         if tok.type == tokenize.NEWLINE:
             if cur:
-                out.append((indent, "".join(cur)))
-            cur, indent, prev = [], None, None
+                out.append((indent, cur))
+            cur, indent = [], None
             continue
         if tok.type == tokenize.ENDMARKER:
             break
         if indent is None:
             indent = tok.start[1]
-        t = tok.string
-        if prev and (prev[-1].isalnum() or prev[-1] == "_") and t[:1] and (t[0].isalnum() or t[0] == "_"):
-            cur.append(" ")
-        cur.append(t)
-        prev = t
+        cur.append(tok.string)
     return out
 
 
-_DOC = ('"' * 3, "'" * 3, 'r' + '"' * 3)
+def _render(toks):
+    out, prev = [], None
+    for t in toks:
+        if prev and (prev[-1].isalnum() or prev[-1] == "_") and t[:1] and (t[0].isalnum() or t[0] == "_"):
+            out.append(" ")
+        out.append(t)
+        prev = t
+    return "".join(out)
 
 
-def _func(lines, header, nth=0):
-    """Header and body statements (docstring and bare `cdef T x` declarations dropped) of the nth def whose
-    normalised header starts with `header`."""
-    hits = [k for k, (_, t) in enumerate(lines) if t.startswith(header)]
+def _is_name(t):
+    return bool(re.fullmatch(r"[A-Za-z_]\w*", t)) and t not in _KEYWORDS
+
+
+def _find_def(lines, name, nth=0):
+    """Index of the nth `def name(` / `cdef … name(` logical line."""
+    hits = [k for k, (_, toks) in enumerate(lines)
+            if toks[0] in ("def", "cdef") and name in toks and toks[toks.index(name) + 1:toks.index(name) + 2] == ["("]
+            and toks[-1] == ":"]
     if len(hits) <= nth:
-        raise ValueError(f"function {header!r} (occurrence {nth}) not found in the source")
-    k = hits[nth]
+        raise ValueError(f"function {name!r} (occurrence {nth}) not found in the source")
+    return hits[nth]
+
+
+def _body(lines, k):
     ind = lines[k][0]
     body = []
-    for ind2, t in lines[k + 1:]:
+    for ind2, toks in lines[k + 1:]:
         if ind2 <= ind:
             break
-        if t.startswith(_DOC):
-            continue
-        if re.match(r"^cdef [A-Za-z_][\w.\[\]:, ]*$", t) and "=" not in t:
-            continue
-        body.append(t)
-    if not body:
-        raise ValueError(f"function {header!r} has no body")
-    return lines[k][1], body
+        body.append((ind2, toks))
+    return body
 
 
-def _slice(body, first, last, what):
-    """Statements from the one starting with `first` to the one starting with `last` (both inclusive)."""
-    a = next((k for k, t in enumerate(body) if t.startswith(first)), None)
+def _locals(header, body, private):
+    """Local names of a function in order of first occurrence."""
+    found = []
+
+    def add(n):
+        if _is_name(n) and n not in found:
+            found.append(n)
+    if private:                                   # parameters of a private function are locals
+        a, b = header.index("("), len(header) - 1 - header[::-1].index(")")
+        seg, depth = [], 0
+        for t in header[a + 1:b] + [","]:
+            if t in "([{":
+                depth += 1
+            elif t in ")]}":
+                depth -= 1
+            if t == "," and depth == 0:
+                if "=" in seg:
+                    seg = seg[:seg.index("=")]
+                if seg[-2:] == ["not", "None"]:
+                    seg = seg[:-2]
+                names = [x for x in seg if _is_name(x)]
+                if names:
+                    add(names[-1])
+                seg = []
+            else:
+                seg.append(t)
+    for _, toks in body:
+        depth = 0
+        if toks[0] == "cdef":
+            for i, t in enumerate(toks):
+                if t in "([{":
+                    depth += 1
+                elif t in ")]}":
+                    depth -= 1
+                elif depth == 0 and i > 1 and _is_name(t) and (i + 1 == len(toks) or toks[i + 1] in ("=", ",")) \
+                        and toks[i - 1] != "=" and "=" not in toks[:i] or (depth == 0 and i > 1 and _is_name(t)
+                                                                           and i + 1 < len(toks) and toks[i + 1] == "="
+                                                                           and toks[i - 1] == ","):
+                    add(t)
+                elif depth == 0 and i > 1 and _is_name(t) and toks[i - 1] == "," and (i + 1 == len(toks) or toks[i + 1] in ("=", ",")):
+                    add(t)
+        else:
+            eq = next((i for i, t in enumerate(toks) if t in ("=", "+=", "-=", "*=", "/=") and
+                       sum(1 for u in toks[:i] if u in "([{") == sum(1 for u in toks[:i] if u in ")]}")), None)
+            if eq is not None:
+                for i, t in enumerate(toks[:eq]):
+                    d = sum(1 for u in toks[:i] if u in "([{") - sum(1 for u in toks[:i] if u in ")]}")
+                    if d == 0 and _is_name(t) and (i == 0 or toks[i - 1] != ".") and toks[i + 1] not in ("[", "(", "."):
+                        add(t)
+        for i, t in enumerate(toks):             # loop / comprehension targets
+            if t == "for":
+                j = i + 1
+                while j < len(toks) and toks[j] != "in":
+                    if _is_name(toks[j]):
+                        add(toks[j])
+                    j += 1
+    return found
+
+
+def _alpha(toks, mapping, is_header=False):
+    out = []
+    depth = 0
+    for i, t in enumerate(toks):
+        if t in "([{":
+            depth += 1
+        elif t in ")]}":
+            depth -= 1
+        if t in mapping and (i == 0 or toks[i - 1] != "."):
+            kwarg = (not is_header) and depth > 0 and i + 1 < len(toks) and toks[i + 1] == "=" and toks[i - 1] in ("(", ",")
+            out.append(t if kwarg else mapping[t])
+        else:
+            out.append(t)
+    return out
+
+
+_FLIP = {">": "<", ">=": "<="}
+
+
+def _canon_condition(toks):
+    """`if|elif|while <cond> :` with flipped `>`/`>=` and sorted top-level `or` operands."""
+    if toks[0] not in ("if", "elif", "while") or toks[-1] != ":":
+        return toks
+    cond = toks[1:-1]
+    parts, cur, depth = [], [], 0
+    for t in cond:
+        if t in "([{":
+            depth += 1
+        elif t in ")]}":
+            depth -= 1
+        if t == "or" and depth == 0:
+            parts.append(cur)
+            cur = []
+        else:
+            cur.append(t)
+    parts.append(cur)
+    canon = []
+    for p in parts:
+        d, ops = 0, []
+        for i, t in enumerate(p):
+            if t in "([{":
+                d += 1
+            elif t in ")]}":
+                d -= 1
+            elif d == 0 and t in ("<", "<=", ">", ">=", "==", "!=", "and", "not", "is", "in"):
+                ops.append((i, t))
+        if len(ops) == 1 and ops[0][1] in _FLIP:
+            i = ops[0][0]
+            p = p[i + 1:] + [_FLIP[p[i]]] + p[:i]
+        canon.append(p)
+    if len(canon) > 1:
+        canon.sort(key=_render)
+    out = [toks[0]]
+    for k, p in enumerate(canon):
+        if k:
+            out.append("or")
+        out += p
+    return out + [":"]
+
+
+def _negate(cond):
+    if cond.count("is") == 1 and "not" not in cond and "or" not in cond and "and" not in cond:
+        i = cond.index("is")
+        return cond[:i + 1] + ["not"] + cond[i + 1:]
+    if cond.count("is") == 1 and cond[cond.index("is") + 1:cond.index("is") + 2] == ["not"] and "or" not in cond and "and" not in cond:
+        i = cond.index("is")
+        return cond[:i + 1] + cond[i + 2:]
+    return ["not", "("] + cond + [")"]
+
+
+def _guard_form(body):
+    """`if C: S… else: break|continue`  ->  `if not C: break|continue` ; `S…` (dedented)."""
+    changed = True
+    while changed:
+        changed = False
+        for k, (ind, toks) in enumerate(body):
+            if toks[0] != "if" or toks[-1] != ":":
+                continue
+            j = k + 1
+            while j < len(body) and body[j][0] > ind:
+                j += 1
+            if j < len(body) and body[j][0] == ind and body[j][1] == ["else", ":"] and j + 1 < len(body) \
+                    and body[j + 1][1] in (["break"], ["continue"]) and (j + 2 == len(body) or body[j + 2][0] <= ind):
+                then = [(ind, t) for _, t in body[k + 1:j]] if all(b[0] == body[k + 1][0] for b in body[k + 1:j]) else None
+                if then is None:
+                    continue
+                body = body[:k] + [(ind, ["if"] + _negate(toks[1:-1]) + [":"]), (body[k + 1][0], body[j + 1][1])] \
+                    + then + body[j + 2:]
+                changed = True
+                break
+    return body
+
+
+def _normal_form(lines, name, nth=0, private=False, roles=None, canon=True):
+    """(header text, [statement texts]) of a function in normal form."""
+    k = _find_def(lines, name, nth)
+    header = list(lines[k][1])
+    body = [(i, list(t)) for i, t in _body(lines, k)]
+    body = [(i, t) for i, t in body if not (len(t) == 1 and t[0][:1] in "\"'rRbBfF" and t[0].rstrip()[-1:] in "\"'")]
+    if roles:
+        header = [roles.get(t, t) for t in header]
+        body = [(i, [roles.get(t, t) for t in toks]) for i, toks in body]
+    loc = _locals(header, body, private)
+    mapping = {n: f"v{q}" for q, n in enumerate(loc)}
+    header = _alpha(header, mapping, is_header=True)
+    body = [(i, _alpha(t, mapping)) for i, t in body]
+    # bare declarations carry no logic; message arguments are not significant
+    out = []
+    for i, t in body:
+        if t[0] == "cdef" and "=" not in t:
+            continue
+        if t[0] == "raise" and len(t) > 2 and t[2] == "(":
+            t = t[:2]
+        out.append((i, t))
+    if canon:
+        out = _guard_form(out)
+        out = [(i, _canon_condition(t)) for i, t in out]
+    if not out:
+        raise ValueError(f"function {name!r} has no body")
+    return _render(header), [_render(t) for _, t in out]
+
+
+def _between(body, first_re, last_re, what, start=0, last_offset=0):
+    a = next((k for k in range(start, len(body)) if re.fullmatch(first_re, body[k])), None)
     if a is None:
-        raise ValueError(f"{what}: statement starting with {first!r} not found")
-    b = next((k for k in range(a, len(body)) if body[k].startswith(last)), None)
+        raise ValueError(f"{what}: no statement of the form {first_re!r}")
+    b = next((k for k in range(a, len(body)) if re.fullmatch(last_re, body[k])), None)
     if b is None:
-        raise ValueError(f"{what}: statement starting with {last!r} not found after {first!r}")
-    return body[a:b + 1]
+        raise ValueError(f"{what}: no statement of the form {last_re!r} after {first_re!r}")
+    return body[a:b + 1 + last_offset], b + 1 + last_offset
 
 
 def _guards(body, what):
-    """(kind, exception class) of the leading `if …: raise X(…)` input checks, in source order."""
-    out = []
-    k = 0
+    """(kind, exception class) of the leading `if …: raise X` input checks, in source order."""
+    out, k = [], 0
     while k + 1 < len(body) and body[k].startswith("if") and body[k + 1].startswith("raise "):
-        cond = body[k]
-        exc = re.match(r"raise (\w+)\(", body[k + 1])
-        if not exc:
-            raise ValueError(f"{what}: cannot read the exception class of {body[k + 1]!r}")
-        if "allclose" in cond and "shape[0]!=distances.shape[1]" in cond:
+        cond, exc = body[k], body[k + 1][6:]
+        if "allclose" in cond and ".shape[0]!=" in cond and ".shape[1]" in cond:
             kind = "symmetric"
         elif "isnan" in cond:
             kind = "nan"
-        elif re.search(r">=MAX_FLOAT\)", cond):
+        elif re.search(r"MAX_FLOAT<=distances\)", cond) or re.search(r"distances>=MAX_FLOAT\)", cond):
             kind = "infinite"
-        elif (m := re.fullmatch(r"if distances\.shape\[0\](<=?|>=?)(\d+):", cond)):
+        elif (m := re.fullmatch(r"if distances\.shape\[0\](<=?)(\d+):", cond)):
             kind = f"rows{m.group(1)}{m.group(2)}"
+        elif (m := re.fullmatch(r"if (\d+)(<=?)distances\.shape\[0\]:", cond)):
+            kind = f"rows{'>' if m.group(2) == '<' else '>='}{m.group(1)}"
         elif re.fullmatch(r"if\(distances<0\)\.any\(\):", cond):
             kind = "negative"
         else:
             kind = "?" + cond
-        out.append((kind, exc.group(1)))
+        out.append((kind, exc))
         k += 2
     if not out:
         raise ValueError(f"{what}: no input checks found")
@@ -170,13 +367,11 @@ def _guards(body, what):
 
 
 def _checks(body):
-    """(condition, exception class) for every `raise` of a function body, in source order."""
     out = []
     for k, t in enumerate(body):
-        m = re.match(r"raise (\w+)\(", t)
-        if m:
+        if t.startswith("raise "):
             cond = next((body[q] for q in range(k - 1, -1, -1) if body[q].startswith(("if", "elif", "else"))), "")
-            out.append((cond, m.group(1)))
+            out.append((cond, t[6:]))
     return out
 
 
@@ -208,6 +403,16 @@ def _lean_type(v):
     raise TypeError(type(v))
 
 
+def _role(lines, caller, pattern, what, nth=0):
+    """Name of a private helper, found through the public function that calls it."""
+    _, body = _normal_form(lines, caller, nth, canon=False)
+    for t in body:
+        m = re.search(pattern, t)
+        if m:
+            return m.group(1)
+    raise ValueError(f"{what}: the call in {caller} was not found")
+
+
 def source_facts():
     """Every literal / structural fact of the three anchored .pyx files the hand-written model hard-codes."""
     from common import paths
@@ -216,75 +421,87 @@ def source_facts():
     nj = _logical_lines(open(os.path.join(base, "nj.pyx")).read())
     tr = _logical_lines(open(os.path.join(base, "tree.pyx")).read())
     F = {}
-    # ---- upgma
-    _, b = _func(up, "def upgma(")
+    cmp_re = r"if v\d+(<=?|>=?)v\d+:"
+    # ---- upgma (operators / constants from the un-flipped text, statement lists from the normal form)
+    _, raw = _normal_form(up, "upgma", canon=False)
+    _, b = _normal_form(up, "upgma")
     F["upgmaGuards"] = _guards([t for t in b if not t.startswith("cdef")], "upgma")
-    F["upgmaInit"] = [t for t in b if t.startswith("cdef") and "=" in t and ("np." in t or "astype" in t)]
-    F["upgmaScan"] = _slice(b, "dist_min=", "j_min=j", "upgma minimum search")
-    F["upgmaMerge"] = _slice(b, "if i_min==", "cluster_size_v[i_min]=", "upgma merge step")
+    F["upgmaInit"] = [t for t in b if t.startswith("cdef") and ("np." in t or "astype" in t)]
+    F["upgmaScan"], _ = _between(b, r"v\d+=MAX_FLOAT", r"if v\d+<=?v\d+:", "upgma minimum search", last_offset=3)
+    F["upgmaMerge"], _ = _between(b, r"if v\d+==-1 or v\d+==-1:", r"v\d+\[v\d+\]=v\d+\[v\d+\]\+v\d+\[v\d+\]", "upgma merge step")
     F["upgmaReturn"] = b[-1]
-    m = re.fullmatch(r"height=dist_min/(\d+)", next((t for t in b if t.startswith("height=")), ""))
+    m = next((re.fullmatch(r"v\d+=v\d+/(\d+)", t) for t in raw if re.fullmatch(r"v\d+=v\d+/(\d+)", t)), None)
     if not m:
         raise ValueError("upgma: `height = dist_min/<int>` not found")
     F["upgmaHeightDivisor"] = int(m.group(1))
-    m = re.fullmatch(r"if dist(<=?|>=?)dist_min:", next((t for t in b if t.startswith("if dist") and "dist_min" in t), ""))
+    m = next((re.fullmatch(cmp_re, t) for t in raw if re.fullmatch(cmp_re, t)), None)
     if not m:
         raise ValueError("upgma: comparison of the minimum search not found")
     F["upgmaScanCmp"] = m.group(1)
     # ---- neighbor_joining
-    _, b = _func(nj, "def neighbor_joining(")
+    _, raw = _normal_form(nj, "neighbor_joining", canon=False)
+    _, b = _normal_form(nj, "neighbor_joining")
     F["njGuards"] = _guards([t for t in b if not t.startswith("cdef")], "neighbor_joining")
-    F["njInit"] = [t for t in b if t.startswith("cdef") and "=" in t and ("np." in t or "astype" in t or "len(" in t)]
-    F["njDivergence"] = _slice(b, "for i in range(distances_v.shape[0]):", "divergence_v[i]=", "nj divergence")
-    k0 = next(k for k, t in enumerate(b) if t.startswith("divergence_v[i]="))
-    F["njCorrected"] = _slice(b[k0 + 1:], "for i in range", "corr_distances_v[i,j]=", "nj corrected distances")
-    F["njScan"] = _slice(b, "dist_min=", "j_min=j", "nj minimum search")
-    F["njJoin"] = _slice(b, "if i_min==", "return Tree(root)", "nj join")
-    k1 = next(k for k, t in enumerate(b) if t.startswith("return Tree(root)"))
-    F["njUpdate"] = b[k1 + 1:]
-    m = re.fullmatch(r"if n_rem_nodes(<=?|>=?)(\d+):", next((t for t in b if t.startswith("if n_rem_nodes")), ""))
+    F["njInit"] = [t for t in b if t.startswith("cdef") and ("np." in t or "astype" in t or "len(" in t)]
+    w = next((k for k, t in enumerate(b) if t == "while True:"), None)
+    if w is None:
+        raise ValueError("nj: `while True:` not found")
+    F["njDivergence"], e = _between(b, r"for v\d+ in range\(.*\):", r"v\d+\[v\d+\]=v\d+", "nj divergence", start=w)
+    F["njCorrected"], e = _between(b, r"for v\d+ in range\(.*\):", r"v\d+\[v\d+,v\d+\]=\(v\d+-\d+\)\*.*", "nj corrected distances", start=e)
+    F["njScan"], e = _between(b, r"v\d+=MAX_FLOAT", r"if v\d+<=?v\d+:", "nj minimum search", start=e, last_offset=3)
+    F["njJoin"], e = _between(b, r"if v\d+==-1 or v\d+==-1:", r"return Tree\(v\d+\)", "nj join", start=e)
+    F["njUpdate"] = b[e:]
+    m = next((re.fullmatch(r"if v\d+(<=?|>=?)(\d+):", t) for t in raw if re.fullmatch(r"if v\d+(<=?|>=?)(\d+):", t)), None)
     if not m:
         raise ValueError("nj: `if n_rem_nodes > <int>` not found")
     F["njJoinCmp"] = (m.group(1), int(m.group(2)))
-    m = re.search(r"\(n_rem_nodes-(\d+)\)\*distances_v\[i,j\]", " ".join(b))
+    m = re.search(r"=\(v\d+-(\d+)\)\*v\d+\[v\d+,v\d+\]", " ".join(raw))
     if not m:
         raise ValueError("nj: `(n_rem_nodes - <int>) * distances_v[i,j]` not found")
     F["njCorrOffset"] = int(m.group(1))
-    halves = sorted(set(re.findall(r"=(\d+)\.(\d+)\*\(", " ".join(t for t in b if t.startswith(("node_dist_", "dist="))))))
+    halves = sorted(set(re.findall(r"v\d+=(\d+)\.(\d+)\*\(", " ".join(raw))))
     if len(halves) != 1:
         raise ValueError(f"nj: the factor of the half-sums is not unique: {halves}")
     F["njHalf"] = (int(halves[0][0] + halves[0][1]), 10 ** len(halves[0][1]))
-    m = re.fullmatch(r"if dist(<=?|>=?)dist_min:", next((t for t in b if t.startswith("if dist") and "dist_min" in t), ""))
+    m = next((re.fullmatch(cmp_re, t) for t in raw if re.fullmatch(cmp_re, t)), None)
     if not m:
         raise ValueError("nj: comparison of the minimum search not found")
     F["njScanCmp"] = m.group(1)
-    mm = [g for g in F["njGuards"] if g[0].startswith("rows")]
-    if len(mm) != 1:
+    rawg = [re.fullmatch(r"if distances\.shape\[0\](<=?|>=?)(\d+):", t) for t in raw]
+    rawg = [g for g in rawg if g]
+    if len(rawg) != 1:
         raise ValueError("nj: minimum size guard not found")
-    mrow = re.fullmatch(r"rows(<=?|>=?)(\d+)", mm[0][0])
-    F["njMinRowsCmp"] = (mrow.group(1), int(mrow.group(2)))
-    # ---- tree.pyx
-    hdrs = []
-    for header, nth in (("def __init__(self,TreeNode root", 0), ("def get_distance(", 0), ("def to_newick(self,labels", 0),
-                        ("def from_newick(str newick", 0), ("def __cinit__(self,children", 0), ("def _set_parent(", 0),
-                        ("def distance_to(", 0), ("def lowest_common_ancestor(", 0), ("def to_newick(self,labels", 1),
-                        ("def from_newick(str newick", 1), ("def as_binary(", 0), ("def copy(self)", 0)):
-        hdrs.append(_func(tr, header, nth)[0])
-    F["signatures"] = hdrs
-    for name, header, nth in (("treeInit", "def __init__(self,TreeNode root", 0), ("treeCopy", "def __copy_create__(self)", 0),
-                              ("treeLeaves", "def leaves(self)", 0), ("treeGetDistance", "def get_distance(", 0),
-                              ("treeToNewick", "def to_newick(self,labels", 0), ("treeFromNewick", "def from_newick(str newick", 0),
-                              ("nodeSetParent", "def _set_parent(", 0), ("nodeCopy", "def copy(self)", 0),
-                              ("nodeAsRoot", "def as_root(self)", 0), ("nodeDistanceTo", "def distance_to(", 0),
-                              ("nodeLca", "def lowest_common_ancestor(", 0), ("createPathToRoot", "cdef list _create_path_to_root(", 0),
-                              ("getLeavesRec", "cdef _get_leaves(", 0), ("nodeToNewick", "def to_newick(self,labels", 1),
-                              ("nodeFromNewick", "def from_newick(str newick", 1), ("asBinary", "def as_binary(", 0),
-                              ("asBinaryRec", "cdef _as_binary(", 0)):
-        F[name] = _func(tr, header, nth)[1]
-    _, b = _func(tr, "def __cinit__(self,children")
+    F["njMinRowsCmp"] = (rawg[0].group(1), int(rawg[0].group(2)))
+    # ---- tree.pyx: private helpers by role (found through their public callers)
+    roles = {
+        _role(tr, "as_binary", r"=(_\w+)\(tree_or_node\.root\)", "_as_binary"): "HELPER_as_binary",
+        _role(tr, "lowest_common_ancestor", r"=(_\w+)\(self\)", "_create_path_to_root"): "HELPER_path_to_root",
+        _role(tr, "get_leaves", r"^(_\w+)\(self,", "_get_leaves"): "HELPER_get_leaves",
+        _role(tr, "__cinit__", r"\.(_\w+)\(self,", "_set_parent"): "HELPER_set_parent",
+    }
+    inv = {v: k for k, v in roles.items()}
+    sig = []
+    for name, nth in (("__init__", 0), ("get_distance", 0), ("to_newick", 0), ("from_newick", 0), ("__cinit__", 0),
+                      ("distance_to", 0), ("lowest_common_ancestor", 0), ("to_newick", 1), ("from_newick", 1),
+                      ("as_binary", 0), ("copy", 0)):
+        sig.append(_render(tr[_find_def(tr, name, nth)][1]))
+    F["signatures"] = sig
+    for fact, name, nth, private in (("treeInit", "__init__", 0, False), ("treeCopy", "__copy_create__", 0, False),
+                                     ("treeLeaves", "leaves", 0, False), ("treeGetDistance", "get_distance", 0, False),
+                                     ("treeToNewick", "to_newick", 0, False), ("treeFromNewick", "from_newick", 0, False),
+                                     ("nodeSetParent", inv["HELPER_set_parent"], 0, True), ("nodeCopy", "copy", 0, False),
+                                     ("nodeAsRoot", "as_root", 0, False), ("nodeDistanceTo", "distance_to", 0, False),
+                                     ("nodeLca", "lowest_common_ancestor", 0, False),
+                                     ("createPathToRoot", inv["HELPER_path_to_root"], 0, True),
+                                     ("getLeavesRec", inv["HELPER_get_leaves"], 0, True),
+                                     ("nodeToNewick", "to_newick", 1, False), ("nodeFromNewick", "from_newick", 1, False),
+                                     ("asBinary", "as_binary", 0, False), ("asBinaryRec", inv["HELPER_as_binary"], 0, True)):
+        F[fact] = _normal_form(tr, name, nth, private=private, roles=roles)[1]
+    _, b = _normal_form(tr, "__cinit__", roles=roles)
     F["nodeInitChecks"] = _checks(b)
-    F["nodeInitAssign"] = [t for t in b if t.startswith(("self._", "child._set_parent", "for child,distance"))]
-    m = re.search(r"illegal_chars=\[([^\]]*)\]", " ".join(F["nodeToNewick"]))
+    F["nodeInitAssign"] = [t for t in b if t.startswith("self._") or "HELPER_set_parent" in t or t.startswith("for v")]
+    m = re.search(r"v\d+=\[([^\]]*)\]for v\d+ in v\d+:if v\d+ in v\d+:raise ValueError", "".join(F["nodeToNewick"]))
+    m = m or re.search(r"=\[((?:[\"'].[\"'],?)+)\]", "".join(F["nodeToNewick"]))
     if not m:
         raise ValueError("illegal_chars list not found in TreeNode.to_newick")
     chars = re.findall(r"""["'](.)["']""", m.group(1))
@@ -297,7 +514,8 @@ def source_facts():
 def gen_lean():
     F = source_facts()
     body = ["/- REGENERATED on every run by harness/props/c19.py from sequence/phylo/{upgma,nj,tree}.pyx. Do not edit.",
-            "   Statements are normalised logical lines (comments, docstrings, layout and bare `cdef` declarations dropped). -/",
+            "   Statements are in the normal form described in the plugin (locals renamed v0, v1, …; messages, comments,",
+            "   docstrings and layout dropped; comparisons and guard clauses canonicalised). -/",
             "namespace BiotiteModel.Gen.C19"]
     for name, val in F.items():
         body.append(f"def {name} : {_lean_type(val)} := {_lean_val(val)}")
@@ -1903,6 +2121,23 @@ def _oracle_binnode(case):
 
 def oracle(case):
     """An exception from a distance / LCA query on a valid tree is itself a violation."""
+    if case.get("kind") in _FORKED_KINDS:
+        # queries on hand-built node objects can dereference None inside the extension: a dead child is a verdict
+        from common import sandbox
+        res = sandbox.run_forked(_oracle_guarded, case, timeout=120)
+        if res[0] == "ok":
+            return res[1]
+        if res[0] == "err":
+            return [("oracle-crash/" + res[1], f"oracle raised {res[1]}: {res[2]}")]
+        return [(f"C19/crash/{case['kind']}-query-kills-process",
+                 f"a distance / LCA / constructor query of the `{case['kind']}` stream killed the interpreter ({res})")]
+    return _oracle_guarded(case)
+
+
+_FORKED_KINDS = ("refused", "api", "dist", "accessors")
+
+
+def _oracle_guarded(case):
     try:
         return _oracle(case)
     except _QueryRaised as e:
